@@ -142,7 +142,7 @@ def run(ctx):
     # (the 2-D walk can be written with or without the in-bound flags and with the first tile of a row inside or before the
     #  loop: when the statements are grouped differently from the reference walk the one-to-one comparison is not decisive)
     from . import common as _common
-    _common.RESTRUCTURED_UNDECIDED[0] = True
+    _common.RESTRUCTURED_UNDECIDED[0] = 'any'       # (split_array has no effects besides its local tile list)
     try:
         (r, I), (rr, IR) = agree_ref(ctx, sa, REF_SPLIT_ARRAY, 'split_array: tiles [y:y+t, x:x+f] advancing by the shifts, row-major',
                                      what=('loopstores', 'calls', 'raises'))
